@@ -179,6 +179,7 @@ def run(ctx):
         importlib.import_module(name).run_faults(ctx)
     importlib.import_module("mp4file_tie").run_faults(ctx, want=("cap",))
     importlib.import_module("id3file_tie").run_faults(ctx, want=("cap",))
+    importlib.import_module("apefile_tie").run_faults(ctx, want=("cap",))
 
 def search(ctx):
     old = ctx.tier; ctx.tier = "thorough"
